@@ -38,7 +38,7 @@ Qed.
 
 Lemma new_copy_inv : copy_inv new_copy.
 Proof. split; cbn; [exact I| |]; intros; contradiction. Qed.
-Lemma reset_node_inv gc : copy_inv (reset_node gc).
+Lemma reset_node_inv hb gc : copy_inv (reset_node hb gc).
 Proof. split; cbn; [exact I| |]; intros; contradiction. Qed.
 
 (* inserting an entry whose version is above max_version *)
@@ -105,7 +105,7 @@ Proof.
     injection H as <- _ _.
     assert (H1 : copy_inv c1).
     { change c1 with (fst (c1, evs1)). rewrite <- Hf.
-      apply (fold_apply_kv_inv_copy now (c_max (reset_node (d_gc d))) (d_kvs d) (reset_node (d_gc d), []) 0);
+      apply (fold_apply_kv_inv_copy now (c_max (reset_node (c_hb c) (d_gc d))) (d_kvs d) (reset_node (c_hb c) (d_gc d), []) 0);
         cbn [fst]; auto; [apply reset_node_inv|cbn; lia]. }
     destruct H1 as [Hs Hv Hr]. split; cbn [c_kvs c_max]; auto.
     intros k v Hin. destruct (Hr _ _ Hin). lia.
